@@ -494,13 +494,15 @@ ABBR = {"all_dot_brackets": "adb", "map_all_dot_brackets": "madb", "cli_stdout_a
         "bpseq": "mbps", "map_dot_bracket": "mdb", "ext_dot_bracket": "mext"}
 
 
-def cases_from(grouped):
-    """One trace case per (input, artefact): every observation of that artefact, in a fixed order."""
+def cases_from(grouped, expect):
+    """One trace case per (input, artefact): every observation of that artefact, in a fixed order.
+    expect = number of observations every case must have (processes x repetitions)."""
     cases = []
     for (inp, art), obs in sorted(grouped.items()):
         obs = sorted(obs, key=lambda o: (o["seed"] == "random", o["seed"].zfill(4), o["rep"]))
         shape = obs[0]["shape"]
-        cases.append({"id": f"{len(cases)}~{inp[:7]}~{ABBR.get(art, art[:5])}", "input": inp, "artefact": art, "shape": shape,
+        cases.append({"id": f"{len(cases)}~{inp[:7]}~{ABBR.get(art, art[:5])}", "input": inp,
+                      "artefact": art, "shape": shape, "expect": expect,
                       "obs": [{"proc": o["proc"], "seed": o["seed"], "rep": o["rep"], "err": o["err"],
                                "digest": o["digest"], "items": o["items"], "size": o["size"]} for o in obs]})
     return cases
@@ -516,10 +518,10 @@ def corrupted_cases():
     def o(proc, rep, items=None, digest="d0", err=""):
         return {"proc": proc, "seed": proc[1:], "rep": rep, "err": err, "digest": digest, "items": items or [],
                 "size": len(items or [])}
-    lst = {"id": "L0", "input": "x", "artefact": "all_dot_brackets", "shape": "list",
+    lst = {"id": "L0", "input": "x", "artefact": "all_dot_brackets", "shape": "list", "expect": 4,
            "obs": [o("s0", 1, ["a", "b", "c"], "d1"), o("s0", 2, ["a", "b", "c"], "d1"),
                    o("s1", 1, ["b", "a", "c"], "d2"), o("s1", 2, ["b", "a", "c"], "d2")]}
-    txt = {"id": "T0", "input": "x", "artefact": "cli_json", "shape": "text",
+    txt = {"id": "T0", "input": "x", "artefact": "cli_json", "shape": "text", "expect": 4,
            "obs": [o("s0", 1), o("s0", 2), o("s1", 1), o("s1", 2)]}
     out = [(lst, ("deviation", "AllDotBracketsHashOrder")), (txt, ("ok",))]
 
@@ -557,6 +559,9 @@ def corrupted_cases():
     def one_process(c):
         c["obs"] = c["obs"][:2]
 
+    def one_missing(c):
+        c["obs"] = c["obs"][:3]
+
     def same_error(c):
         for x in c["obs"]:
             x["err"], x["digest"] = "ValueError", ""
@@ -570,6 +575,7 @@ def corrupted_cases():
     variant(txt, "T2", ("fail", "SameAcrossRuns", "bytes"), adb_as_text)
     variant(txt, "T3", ("fail", "AtLeastTwoProcesses"), one_process)
     variant(txt, "T4", ("ok",), same_error)
+    variant(txt, "T5", ("fail", "EveryProcessObserved"), one_missing)
     return out
 
 
